@@ -1,6 +1,7 @@
 /- The three branches of mpf_set_str's conversion (Mpir/Model/MpfStr.lean: convInt, convMul, convDiv):
    format rules, the rational value of the result, and how far it is from mantissa · base^(±e). -/
 import MpirProofs.Lemmas.MpfStr
+import MpirProofs.Lemmas.MpfStrExact
 namespace Mpir.MpfStr
 open Mpir Mpir.Mpf
 
@@ -132,14 +133,14 @@ theorem err_with_sign (neg : Bool) (prec : ℕ) {R V : ℚ} (hV : 0 < V) (h : |R
 theorem convInt_spec (prec : ℕ) (neg : Bool) (M : ℕ) (hM : M ≠ 0) :
     WF (convInt prec neg M) ∧
     ∃ R : ℚ, toQ (convInt prec neg M) = sgn neg * R ∧ Appr (epsP (prec + 1)) R (M : ℚ) 1 ∧
-      (limbLen M ≤ prec + 1 → R = M) := by
+      (limbLen M ≤ prec + 1 → R = M) ∧ (1 ≤ prec → FitsN M (64 * (prec - 1)) → R = M) := by
   obtain ⟨k1, k2, k3, k4, k5, k6⟩ := keepTop_spec (prec + 1) (by omega) hM
   have ak := appr_keepTop (prec + 1) (by omega) hM
   obtain ⟨b1, b2⟩ := limbLen_spec k4
   have hl1 := limbLen_pos k4
   unfold convInt
   set km := keepTop (prec + 1) M
-  refine ⟨WF_mkNat prec neg _ _ _ hl1 (by rw [k3]; omega) b1 b2, (km.1 : ℚ) * (B : ℚ) ^ km.2, ?_, ?_, ?_⟩
+  refine ⟨WF_mkNat prec neg _ _ _ hl1 (by rw [k3]; omega) b1 b2, (km.1 : ℚ) * (B : ℚ) ^ km.2, ?_, ?_, ?_, ?_⟩
   · rw [toQ_mkNat _ _ _ _ _ b2]
     have : ((limbLen km.1 : ℤ) + (km.2 : ℤ)) - (limbLen km.1 : ℤ) = (km.2 : ℤ) := by ring
     rw [this, zpow_natCast]; ring
@@ -147,13 +148,18 @@ theorem convInt_spec (prec : ℕ) (neg : Bool) (M : ℕ) (hM : M ≠ 0) :
   · intro h
     have := k6 h
     rw [show km = (M, 0) from this]; simp
+  · intro hp hf
+    have := keepTop_exact prec hp hM hf
+    exact_mod_cast this
 
 /-! ### multiplication by base^e -/
 
 theorem convMul_spec (prec : ℕ) (neg : Bool) (M b e : ℕ) (hM : M ≠ 0) (hb : 1 ≤ b) (he : 1 ≤ e) :
     WF (convMul prec neg M b e) ∧
     ∃ R : ℚ, toQ (convMul prec neg M b e) = sgn neg * R ∧
-      Appr (epsP (prec + 1)) R ((M : ℚ) * (b : ℚ) ^ e) (e + 2) := by
+      Appr (epsP (prec + 1)) R ((M : ℚ) * (b : ℚ) ^ e) (e + 2) ∧
+      (1 ≤ prec → FitsN M (64 * (prec - 1)) → FitsN (b ^ e) (64 * (prec - 1)) → FitsN (M * b ^ e) (64 * (prec - 1)) →
+        R = (M : ℚ) * (b : ℚ) ^ e) := by
   have hP : 1 ≤ prec + 1 := by omega
   have h0 := epsP_nonneg (prec + 1)
   have h1 := epsP_le_one (prec + 1)
@@ -173,7 +179,7 @@ theorem convMul_spec (prec : ℕ) (neg : Bool) (M b e : ℕ) (hM : M ≠ 0) (hb 
   rw [t3] at c1 c2
   have hmin1 : 1 ≤ min (limbLen t) (prec + 1) := by omega
   refine ⟨WF_mkNat prec neg _ _ _ hmin1 (by omega) c1 c2,
-    (kt.1 : ℚ) * (B : ℚ) ^ kt.2 * ((B : ℚ) ^ km.2 * (B : ℚ) ^ pw.2), ?_, ?_⟩
+    (kt.1 : ℚ) * (B : ℚ) ^ kt.2 * ((B : ℚ) ^ km.2 * (B : ℚ) ^ pw.2), ?_, ?_, ?_⟩
   · rw [toQ_mkNat _ _ _ _ _ c2]
     have : ((limbLen t : ℤ) + (km.2 : ℤ) + (pw.2 : ℤ)) - ((min (limbLen t) (prec + 1) : ℕ) : ℤ) =
         ((kt.2 + km.2 + pw.2 : ℕ) : ℤ) := by
@@ -195,5 +201,17 @@ theorem convMul_spec (prec : ℕ) (neg : Bool) (M b e : ℕ) (hM : M ≠ 0) (hb 
     have : 1 + (1 + e) = e + 2 := by omega
     rw [this] at tr
     exact tr
+  · intro hp fM fb fv
+    have xm : km.1 * B ^ km.2 = M := keepTop_exact prec hp hM fM
+    have xp : pw.1 * B ^ pw.2 = b ^ e := powHigh_exact_of_fits b prec e hp hb he fb
+    have ht' : t * B ^ (km.2 + pw.2) = M * b ^ e := by
+      show pw.1 * km.1 * B ^ (km.2 + pw.2) = _
+      rw [← xm, ← xp, pow_add]; ring
+    have ft : FitsN t (64 * (prec - 1)) := by
+      rw [← ht'] at fv; exact fitsN_of_mul_Bpow fv
+    have xt : kt.1 * B ^ kt.2 = t := keepTop_exact prec hp ht ft
+    have : kt.1 * B ^ kt.2 * (B ^ km.2 * B ^ pw.2) = M * b ^ e := by
+      rw [xt, ← pow_add]; exact ht'
+    exact_mod_cast this
 
 end Mpir.MpfStr
